@@ -30,7 +30,7 @@ func (fr *Frame) applySpec(sp *FuncSpec, fn *ssa.Function, name string, args []V
 		u.oblige(fr, "pre", pos, fmt.Sprintf("%s requires %s", lastSeg(stripTypeArgs(name)), rq.Text), pc, t)
 	}
 	// havoc the assigns footprint
-	comps, all, err := u.eng.resolveAssigns(sp, fn)
+	comps, all, err := u.eng.resolveAssigns(sp, fn, false)
 	if err != nil {
 		u.unsupportedf("assigns of %s: %v", shortFn(name), err)
 	}
@@ -47,6 +47,65 @@ func (fr *Frame) applySpec(sp *FuncSpec, fn *ssa.Function, name string, args []V
 		_ = cur
 		u.m.noteWrite(cn.Name, Term{})
 		st.heap[cn.Name] = u.c.Fresh("hv_"+cn.Name, cn.Sort)
+	}
+	// object-precise footprints: self.<fields> (fields of the receiver object only) and mapobj(<expr>)
+	// (entries of one map object only)
+	for _, item := range sp.Assigns {
+		switch {
+		case strings.HasPrefix(item, "self."):
+			rp, ok := args[0].(PtrV)
+			if !ok || len(args) == 0 {
+				u.unsupportedf("assigns %s of %s: receiver is not a pointer", item, shortFn(name))
+				continue
+			}
+			q := rp
+			cur := rp.pointee()
+			bad := false
+			for _, f := range strings.Split(strings.TrimPrefix(item, "self."), ".") {
+				stt, ok := cur.Underlying().(*types.Struct)
+				if !ok {
+					bad = true
+					break
+				}
+				found := false
+				for i := 0; i < stt.NumFields(); i++ {
+					if stt.Field(i).Name() == f {
+						q.Path = append(append([]int{}, q.Path...), i)
+						cur = stt.Field(i).Type()
+						found = true
+						break
+					}
+				}
+				if !found {
+					bad = true
+					break
+				}
+			}
+			if bad {
+				u.unsupportedf("assigns %s of %s: cannot resolve", item, shortFn(name))
+				continue
+			}
+			u.frameCheckPtr(fr, st, pc, q, pos, shortFn(name))
+			u.m.StoreVal(st, q, u.m.FreshValue(st, "hv_self", cur))
+		case strings.HasPrefix(item, "mapobj(") && strings.HasSuffix(item, ")"):
+			ex, err := ParseSpecExpr(item[7 : len(item)-1])
+			if err != nil {
+				u.unsupportedf("assigns %s of %s: %v", item, shortFn(name), err)
+				continue
+			}
+			mv, err := env.eval(ex)
+			if err != nil || mv.T == nil {
+				u.unsupportedf("assigns %s of %s: %v", item, shortFn(name), err)
+				continue
+			}
+			mt, ok := mv.T.Underlying().(*types.Map)
+			ms, ok2 := mv.V.(Scalar)
+			if !ok || !ok2 {
+				u.unsupportedf("assigns %s of %s: not a map", item, shortFn(name))
+				continue
+			}
+			u.havocMapObject(fr, st, pc, mt, ms.T, pos, shortFn(name))
+		}
 	}
 	for _, g := range sp.Assigns {
 		if strings.HasPrefix(g, "ghost:") {
@@ -95,7 +154,10 @@ func (fr *Frame) applySpec(sp *FuncSpec, fn *ssa.Function, name string, args []V
 	}
 	penv := &SpecEnv{u: u, st: st, old: old, names: map[string]SVal{}}
 	u.bindParams(penv, sp, fn, sig, args, results)
-	for _, en := range sp.Ensures {
+	for _, en := range append(append([]Clause{}, sp.Ensures...), sp.Assumed...) {
+		if en.Kind == "assumes" {
+			u.extUsed["assumed-clause:"+shortFn(name)+": "+en.Text] = true
+		}
 		t, err := penv.evalHyp(en.E)
 		if err != nil {
 			if strings.HasPrefix(err.Error(), "unknown name") {
@@ -126,13 +188,15 @@ type compRef struct {
 //   elems(T)       elements of arrays/slices of T
 //   mapof(M)       a map type, e.g. mapof(map[common.Address]bool)
 //   hfn:name       a ghost heap function
-func (eng *Engine) resolveAssigns(sp *FuncSpec, fn *ssa.Function) ([]compRef, bool, error) {
+func (eng *Engine) resolveAssigns(sp *FuncSpec, fn *ssa.Function, forUnit bool) ([]compRef, bool, error) {
 	var out []compRef
 	for _, item := range sp.Assigns {
 		switch {
 		case item == "*":
 			return nil, true, nil
 		case strings.HasPrefix(item, "ghost:"):
+			continue
+		case strings.HasPrefix(item, "mapobj("):
 			continue
 		case strings.HasPrefix(item, "hfn:"):
 			h := eng.specs.HFns[strings.TrimPrefix(item, "hfn:")]
@@ -170,10 +234,15 @@ func (eng *Engine) resolveAssigns(sp *FuncSpec, fn *ssa.Function) ([]compRef, bo
 			parts := strings.Split(item, ".")
 			var t types.Type
 			var rest []string
-			if parts[0] == "self" && fn != nil && len(fn.Params) > 0 {
-				// self.f.g : relative to the (instantiated) receiver type of the function
-				if pt, ok := fn.Params[0].Type().Underlying().(*types.Pointer); ok {
-					t, rest = pt.Elem(), parts[1:]
+			if parts[0] == "self" {
+				if !forUnit {
+					continue // at call sites self.* is resolved against the actual receiver (object-precise)
+				}
+				if fn != nil && len(fn.Params) > 0 {
+					// self.f.g : relative to the (instantiated) receiver type of the function
+					if pt, ok := fn.Params[0].Type().Underlying().(*types.Pointer); ok {
+						t, rest = pt.Elem(), parts[1:]
+					}
 				}
 			}
 			if t == nil {
@@ -274,25 +343,44 @@ func (u *Unit) frameCheckComps(fr *Frame, pc Term, comps []compRef, pos token.Po
 var assignSetCache = map[string]map[string]bool{}
 
 func (u *Unit) assignSet() map[string]bool {
-	globalMu.Lock()
-	defer globalMu.Unlock()
-	ck := fmt.Sprintf("%p|%s", u.spec, u.fn.String())
-	if s, ok := assignSetCache[ck]; ok {
-		return s
+	if u.assignSetDone {
+		return u.assignSetVal
 	}
-	comps, all, err := u.eng.resolveAssigns(u.spec, u.fn)
+	ck := ""
+	_ = ck
+	if false {
+		return nil
+	}
+	comps, all, err := u.eng.resolveAssigns(u.spec, u.fn, true)
 	if err != nil {
 		u.unsupportedf("assigns of unit: %v", err)
 	}
 	if all {
-		assignSetCache[ck] = nil
+		u.assignSetDone, u.assignSetVal = true, nil
 		return nil
 	}
 	s := map[string]bool{}
 	for _, c := range comps {
 		s[c.Name] = true
 	}
-	assignSetCache[ck] = s
+	for _, item := range u.spec.Assigns {
+		if strings.HasPrefix(item, "mapobj(") && strings.HasSuffix(item, ")") && u.entrySt != nil {
+			if ex, err := ParseSpecExpr(item[7 : len(item)-1]); err == nil {
+				env := &SpecEnv{u: u, st: u.entrySt, old: u.entrySt, names: map[string]SVal{}}
+				u.bindParams(env, u.spec, u.fn, u.fn.Signature, u.params, nil)
+				if mv, err := env.eval(ex); err == nil && mv.T != nil {
+					if mt, ok := mv.T.Underlying().(*types.Map); ok {
+						s[u.mapDomName(mt)] = true
+						s[u.mapLenName(mt)] = true
+						for _, lf := range leaves(mt.Elem()) {
+							s[u.mapValName(mt, lf.Path)] = true
+						}
+					}
+				}
+			}
+		}
+	}
+	u.assignSetDone, u.assignSetVal = true, s
 	return s
 }
 
@@ -714,6 +802,7 @@ func inv2loop(text string) (int, bool) {
 // ones win; with inclusive also those of `at` itself) to names and returns the dominating blocks.
 func (fr *Frame) localNames(at *ssa.BasicBlock, inclusive bool, st *State, names map[string]SVal) []*ssa.BasicBlock {
 	u := fr.u
+	declPos := map[string]token.Pos{}
 	var doms []*ssa.BasicBlock
 	for _, b := range fr.fn.Blocks {
 		if (b != at || inclusive) && b.Dominates(at) {
@@ -739,6 +828,13 @@ func (fr *Frame) localNames(at *ssa.BasicBlock, inclusive bool, st *State, names
 					continue
 				}
 			}
+			// several source variables may share a name (shadowing): the outermost declaration wins
+			if obj := dr.Object(); obj != nil {
+				if prev, seen := declPos[id]; seen && obj.Pos() > prev {
+					continue
+				}
+				declPos[id] = obj.Pos()
+			}
 			if dr.IsAddr {
 				if pv, ok := v.(PtrV); ok {
 					names[id] = SVal{V: u.loadNoAssume(st, pv), T: dr.X.Type().(*types.Pointer).Elem()}
@@ -749,4 +845,45 @@ func (fr *Frame) localNames(at *ssa.BasicBlock, inclusive bool, st *State, names
 		}
 	}
 	return doms
+}
+
+// frameCheckPtr: a callee's object-precise footprint must lie inside the caller's frame.
+func (u *Unit) frameCheckPtr(fr *Frame, st *State, pc Term, p PtrV, pos token.Pos, callee string) {
+	if u.spec == nil || u.discov > 0 || u.spec.Opts["frame"] == "off" {
+		return
+	}
+	allowed := u.assignSet()
+	if allowed == nil {
+		return
+	}
+	for _, lf := range leaves(p.pointee()) {
+		n, _ := compName(p, lf.Path)
+		if !allowed[n] {
+			u.oblige(fr, "frame", pos, fmt.Sprintf("callee %s assigns %s", callee, n), pc, Ge(p.Base, u.entrySt.alloc))
+			return
+		}
+	}
+}
+
+// havocMapObject forgets the entries of one map object.
+func (u *Unit) havocMapObject(fr *Frame, st *State, pc Term, mt *types.Map, mref Term, pos token.Pos, callee string) {
+	ks := mapKeySort(mt)
+	names := []compRef{{u.mapDomName(mt), ArrSort(SInt, ArrSort(ks, SBool))}, {u.mapLenName(mt), SArrI}}
+	for _, lf := range leaves(mt.Elem()) {
+		u.m.markRef(u.mapValName(mt, lf.Path), lf.Kind)
+		names = append(names, compRef{u.mapValName(mt, lf.Path), ArrSort(SInt, ArrSort(ks, lf.Sort))})
+	}
+	if u.spec != nil && u.discov == 0 && u.spec.Opts["frame"] != "off" {
+		if allowed := u.assignSet(); allowed != nil && !allowed[names[0].Name] {
+			u.oblige(fr, "frame", pos, fmt.Sprintf("callee %s assigns map object of %s", callee, names[0].Name), pc, Ge(mref, u.entrySt.alloc))
+		}
+	}
+	for _, cn := range names {
+		comp := u.m.comp(st, cn.Name, cn.Sort)
+		inner := u.c.Fresh("hv_mapobj", arrValSort(cn.Sort))
+		u.m.noteWrite(cn.Name, mref)
+		st.heap[cn.Name] = u.c.Def(cn.Name, Store(comp, mref, inner))
+	}
+	ln := u.mapLen(st, mt, mref)
+	_ = ln
 }
